@@ -37,7 +37,8 @@ def case_sig(c):
 
 def case_public(c):
     return {"tle": list(c["tle"]), "lon": c["lon"], "lat": c["lat"], "alt": c["alt"],
-            "start": c["start"].isoformat(), "length_h": c["length"], "horizon": repr(c["horizon"]), "stratum": c["tag"]}
+            "start": c["start"].isoformat(), "length_h": c["length"], "horizon": repr(c["horizon"]), "stratum": c["tag"],
+            **({"earlier_queries_on_the_same_object": c["history"]} if c.get("history") else {})}
 
 
 def make_orb(tle):
@@ -370,11 +371,59 @@ def correspondence(ctx, c, rec, flat):
     return len(ps_m)
 
 
+def history_stratum(ctx, rng, cases):
+    """The property quantifies over every query, whatever the object has served before: ONE Orbital object answers a
+    sequence of get_next_passes calls that differ from their predecessor in a single argument (horizon, altitude,
+    longitude, latitude, window length, start), and every answer is judged by the same dense-scan oracle, evaluated
+    on a FRESH object.  The replay of a violation carries the earlier queries."""
+    usable = [c for c in cases if c["tag"] in ("random", "overhead", "fixed") and c["length"] <= 24] or cases
+    n_groups = ctx.n(5, 24)
+    done = 0
+    for g in range(n_groups):
+        base = dict(usable[rng.randrange(len(usable))])
+        try:
+            orb = make_orb(base["tle"])
+            fresh = make_orb(base["tle"])
+            dense_scan(fresh, base, 60.0)
+        except Exception:
+            continue
+        seq = [base]
+        for which in rng.sample(["horizon", "horizon", "alt", "lon", "lat", "length", "start"], 4):
+            v = dict(seq[-1])
+            if which == "horizon":
+                v["horizon"] = round(rng.choice([0.0, 5.0, 10.0, 20.0, rng.uniform(0.5, 30.0)]), 3)
+                if v["horizon"] == seq[-1]["horizon"]:
+                    v["horizon"] = seq[-1]["horizon"] + 7.5
+            elif which == "alt":
+                v["alt"] = round(seq[-1]["alt"] + rng.choice([0.5, 2.0, -0.2]), 3)
+            elif which == "lon":
+                v["lon"] = round(((seq[-1]["lon"] + rng.uniform(5, 60) + 180) % 360) - 180, 4)
+            elif which == "lat":
+                v["lat"] = round(max(-89.0, min(89.0, seq[-1]["lat"] + rng.uniform(-25, 25))), 4)
+            elif which == "length":
+                v["length"] = max(2, min(24, seq[-1]["length"] + rng.choice([-3, 2, 5])))
+            else:
+                v["start"] = seq[-1]["start"] + dt.timedelta(minutes=rng.choice([1, 17, 90]))
+            seq.append(v)
+        hist = []
+        for j, c in enumerate(seq):
+            c = dict(c, key="h%d.%d" % (g, j), tag="history", history=list(hist))
+            rec = run_impl(orb, c)
+            ctx.case(("impl", c["key"], "history"),
+                     {**case_public(c), "passes": None if rec["result"] is None else len(rec["result"]), "error": rec["error"]})
+            oracle(ctx, fresh, c, rec)
+            hist.append({k: v for k, v in case_public(c).items() if k in ("lon", "lat", "alt", "start", "length_h", "horizon")})
+            done += 1
+    ctx.notes["history_queries"] = done
+    ctx.extra["history_queries"] = done
+
+
 def run(ctx):
     ctx.rule = ("per case (TLE, site, start, length h, horizon): strata random / overhead (observer on the ground track) / grazing "
                 "(horizon within 1e-3..1 deg of a pass maximum) / window-edge (start or end inside or next to a pass) / "
                 "sample-on-horizon (horizon := elevation of a minute sample, exactly, at a peak sample, or within the scalar/array "
-                "rounding gap); distinct = distinct case; each case is one correspondence replay + one dense-scan oracle run")
+                "rounding gap) / history (one Orbital object answers a sequence of queries differing in one argument each; judged by "
+                "the oracle on a fresh object); distinct = distinct case; each case is one correspondence replay + one dense-scan oracle run")
     ctx.assumptions += [
         "ORACLE HYPOTHESES of the theorems (Section variables / premises, sampled here, not proved): orbital._get_root "
         "(scipy.optimize.brentq + end-point fall-back) returns a point of the bracketing minute [guess, guess+1] (checked on every "
@@ -418,6 +467,7 @@ def run(ctx):
                 continue                           # outside the model's domain (documented)
             items.append(([fkey(v) for v in elev], [r for _, _, r in rec["roots"]]))
             recs.append((c, rec))
+    history_stratum(ctx, rng, cases)
     npasses = 0
     for lo in range(0, len(items), 60):
         flats, out = model_batch(items[lo:lo + 60])
